@@ -6,11 +6,11 @@ import re
 
 HERE = os.path.dirname(os.path.dirname(os.path.abspath(__file__)))
 rows = json.load(open(os.path.join(HERE, "seeded", "SUMMARY.json")))
-for extra in ("SUMMARY-r2.json", "SUMMARY-r3.json", "SUMMARY-r4.json", "SUMMARY-r5.json", "SUMMARY-r6.json"):
+for extra in ("SUMMARY-r2.json", "SUMMARY-r3.json", "SUMMARY-r4.json", "SUMMARY-r5.json", "SUMMARY-r6.json", "SUMMARY-r7.json"):
     if os.path.exists(os.path.join(HERE, "seeded", extra)):
         rows += json.load(open(os.path.join(HERE, "seeded", extra)))
 first = {}
-for nm in ("ROUND1.json", "ROUND1-r2.json", "ROUND1-r3.json", "ROUND1-r4.json", "ROUND1-r5.json", "ROUND1-r6.json"):
+for nm in ("ROUND1.json", "ROUND1-r2.json", "ROUND1-r3.json", "ROUND1-r4.json", "ROUND1-r5.json", "ROUND1-r6.json", "ROUND1-r7.json"):
     path1 = os.path.join(HERE, "seeded", nm)
     if os.path.exists(path1):
         first.update({r["id"]: r for r in json.load(open(path1))})
